@@ -311,8 +311,3 @@ Proof.
   - split; auto. intros H. apply Hm in H. congruence.
 Qed.
 
-Print Assumptions lock_mask_exact.
-Print Assumptions lock_held_nodup.
-Print Assumptions lock_is_locked_iff.
-Print Assumptions lock_lock_fresh.
-Print Assumptions lock_unlock_balanced.
